@@ -311,7 +311,7 @@ func runRound(e *hk.Env, seed uint64, n int, rnd *hk.Rng) {
 				rd.zeroWord.Add(1) // 1 or 3: changing
 				rd.apply(o)
 				rd.zeroWord.Add(1) // 2: certainly on (after Add returned) / 0: certainly off (after Remove returned)
-				for y := 0; y < 1+int(yield[nW]>>uint(k%32)&15)*4; y++ { // leave the flag alone for a while
+				for y := 0; y < 1+int(yield[nW]>>uint(k%32)&7)*2; y++ { // leave the flag alone for a while
 					runtime.Gosched()
 				}
 			}
@@ -543,14 +543,22 @@ func runRound(e *hk.Env, seed uint64, n int, rnd *hk.Rng) {
 }
 
 func child(e *hk.Env) error {
-	budget := 9 * time.Second
-	minRounds := 220
+	budget := 5 * time.Second
+	minRounds := 210
+	swRounds := 2200
 	if e.Thorough() {
-		budget = 120 * time.Second
+		budget = 110 * time.Second
 		minRounds = 3000
+		swRounds = 30000
 	}
 	if e.Replay != "" {
-		budget, minRounds = 3*time.Second, 50
+		budget, minRounds, swRounds = 3*time.Second, 50, 300
+	}
+	if os.Getenv("VERIF_C12_SMOKE") == "1" { // short pass, used for the GOARCH=386 build
+		budget, minRounds, swRounds = time.Second, 20, 100
+	}
+	if os.Getenv("VERIF_C12_ONLY_WRAP") == "1" { // debugging aid: only the long exact-update-count scenario
+		budget, minRounds, swRounds = 0, 0, 0
 	}
 	t0 := time.Now()
 	for n := 0; ; n++ {
@@ -564,6 +572,18 @@ func child(e *hk.Env) error {
 		}
 	}
 	e.Stats["churn_wall_s"] = fmt.Sprintf("%.1f", time.Since(t0).Seconds())
+	t1 := time.Now()
+	for n := 0; n < swRounds; n++ {
+		runSwitchRound(e, e.Seed, n, e.Rng.Fork())
+		if v, _ := e.Stats["violations"].(int); v >= 10 {
+			break
+		}
+	}
+	e.Stats["switch_rounds_wall_s"] = fmt.Sprintf("%.1f", time.Since(t1).Seconds())
+	if e.Thorough() && e.Replay == "" && os.Getenv("VERIF_C12_SMOKE") != "1" {
+		runWrapScenario(e, 1<<16)
+		runWrapScenario(e, 1<<24)
+	}
 	e.Stats["gomaxprocs"] = runtime.GOMAXPROCS(0)
 	return nil
 }
